@@ -41,19 +41,19 @@ META = {
 
 def check(ctx):
     g = gc.build(ctx, "R07")
-    r07_1(ctx, g)
-    r07_2(ctx, g)
-    r07_3(ctx, g)
-    r07_4(ctx, g)
-    r07_5(ctx)
-    c15.r15_2(ctx, g)
-    c06.r06_6(ctx)
-    r07_7(ctx, g)
-    r07_8(ctx, g)
-    r07_9(ctx, g)
-    r07_10(ctx, g)
-    r07_11(ctx, g)
-    c06.r06_4_caller(ctx, oc.build(ctx, "R06.4"))  # (BO, NO) order of the written S lines: the tags written are those computed, the counter is not disturbed
+    ctx.run(r07_1, g)
+    ctx.run(r07_2, g)
+    ctx.run(r07_3, g)
+    ctx.run(r07_4, g)
+    ctx.run(r07_5)
+    ctx.run(c15.r15_2, g)
+    ctx.run(c06.r06_6)
+    ctx.run(r07_7, g)
+    ctx.run(r07_8, g)
+    ctx.run(r07_9, g)
+    ctx.run(r07_10, g)
+    ctx.run(r07_11, g)
+    ctx.run(c06.r06_4_caller, oc.build(ctx, "R06.4"))  # (BO, NO) order of the written S lines: the tags written are those computed, the counter is not disturbed
     ctx.not_decided += [
         "file-level equality on every GFA (tags round-trip through a dict: a repeated tag name on one S line keeps the last value)",
         "uniqueness of component names in name_comps (two components with the same majority SN overwrite each other)",
@@ -61,8 +61,8 @@ def check(ctx):
     # mechanisms this property rests on (see shared.py): a change there is reported here as well
     from . import shared as _sh
 
-    _sh.graph_loader(ctx)
-    _sh.cli_layer(ctx, "gaftools.cli.order_gfa")
+    ctx.run(_sh.graph_loader)
+    ctx.run(_sh.cli_layer, "gaftools.cli.order_gfa")
 
 
 def r07_1(ctx, g):
